@@ -176,7 +176,8 @@ func checkC17(c *Ctx, r *Report) {
 			arg := call.Call.Args[0]
 			if lim, ok := arg.(*ssa.Call); ok && describeCall(&lim.Call).Name == "LimitReader" {
 				readAll = call
-				if bo, ok := lim.Call.Args[1].(*ssa.BinOp); ok && bo.Op == token.ADD {
+				// the limit may be computed once outside the closure (`readLimit := max + 1`)
+				if bo, ok := resolveOrigin(c, lim.Call.Args[1], 4).(*ssa.BinOp); ok && bo.Op == token.ADD {
 					if k, ok := constInt(bo.Y); ok && k == 1 {
 						plusOne = true
 					}
@@ -360,7 +361,7 @@ func (c *Ctx) c17SizeGuardViaHelper(th *ssa.Function) (bool, token.Pos, string) 
 			}
 			if lim, ok := rc.Call.Args[0].(*ssa.Call); ok && describeCall(&lim.Call).Name == "LimitReader" {
 				hc, h, readAll = call, f, rc
-				if bo, ok := lim.Call.Args[1].(*ssa.BinOp); ok && bo.Op == token.ADD {
+				if bo, ok := resolveOrigin(c, lim.Call.Args[1], 4).(*ssa.BinOp); ok && bo.Op == token.ADD {
 					if k, ok := constInt(bo.Y); ok && k == 1 {
 						plusOne = true
 					}
@@ -375,7 +376,9 @@ func (c *Ctx) c17SizeGuardViaHelper(th *ssa.Function) (bool, token.Pos, string) 
 		return false, readAll.Pos(), "the body is read through LimitReader(max) rather than max+1: an oversized body is silently truncated at the limit instead of being detected"
 	}
 	res := h.Signature.Results()
-	bodyIdx, statusIdx, errIdx := -1, -1, -1
+	// two shapes: the helper hands back (body, status, err) and the handler answers, or the helper answers itself and
+	// hands back (body, …, ok)
+	bodyIdx, statusIdx, errIdx, okIdx := -1, -1, -1, -1
 	for i := 0; i < res.Len(); i++ {
 		switch t := res.At(i).Type().Underlying().(type) {
 		case *types.Slice:
@@ -384,13 +387,17 @@ func (c *Ctx) c17SizeGuardViaHelper(th *ssa.Function) (bool, token.Pos, string) 
 			if t.Info()&types.IsInteger != 0 {
 				statusIdx = i
 			}
+			if t.Kind() == types.Bool {
+				okIdx = i
+			}
 		case *types.Interface:
 			if res.At(i).Type().String() == "error" {
 				errIdx = i
 			}
 		}
 	}
-	if bodyIdx < 0 || statusIdx < 0 || errIdx < 0 {
+	selfAnswering := okIdx >= 0 && errIdx < 0
+	if bodyIdx < 0 || (!selfAnswering && (statusIdx < 0 || errIdx < 0)) {
 		return false, hc.Pos(), ""
 	}
 	// the helper: `len(body) > max` whose true side only returns (…, 413, non-nil error)
@@ -416,7 +423,15 @@ func (c *Ctx) c17SizeGuardViaHelper(th *ssa.Function) (bool, token.Pos, string) 
 			continue
 		}
 		if ret, ok := lastInstr(b.Succs[0]).(*ssa.Return); ok && len(ret.Results) == res.Len() {
-			if k, _ := constInt(ret.Results[statusIdx]); k == 413 && !isNilConst(ret.Results[errIdx]) {
+			if selfAnswering {
+				for _, in := range b.Succs[0].Instrs {
+					if cc := getCall(in); cc != nil && describeCall(cc).Name == "writeTranslatorError" {
+						if k, _ := constInt(cc.Args[len(cc.Args)-1]); k == 413 && isNilConst(ret.Results[bodyIdx]) {
+							guard = ifi
+						}
+					}
+				}
+			} else if k, _ := constInt(ret.Results[statusIdx]); k == 413 && !isNilConst(ret.Results[errIdx]) {
 				guard = ifi
 			}
 		}
@@ -438,8 +453,30 @@ func (c *Ctx) c17SizeGuardViaHelper(th *ssa.Function) (bool, token.Pos, string) 
 			return false, ret.Pos(), "the reading helper can hand the body back without having passed the size test"
 		}
 	}
+	// parsing inside the helper (the model name) comes after the size test as well
+	badParse := token.NoPos
+	eachInstr(h, func(in ssa.Instruction) {
+		cc := getCall(in)
+		if cc == nil {
+			return
+		}
+		if n := describeCall(cc).Name; n == "ExtractModelName" || n == "TransformRequest" {
+			past := false
+			for _, cf := range normFacts(condFacts(in.Block())) {
+				if cf.If == guard && !cf.True {
+					past = true
+				}
+			}
+			if !past {
+				badParse = in.Pos()
+			}
+		}
+	})
+	if badParse != token.NoPos {
+		return false, badParse, "parsing or dispatch can happen without having passed the size test"
+	}
 	// the handler: the error branch answers with the helper's status; parse and dispatch sit on the no-error side
-	var errV, statusV ssa.Value
+	var errV, statusV, okV ssa.Value
 	for _, ref := range *hc.Referrers() {
 		if ex, ok := ref.(*ssa.Extract); ok {
 			switch ex.Index {
@@ -447,8 +484,38 @@ func (c *Ctx) c17SizeGuardViaHelper(th *ssa.Function) (bool, token.Pos, string) 
 				errV = ex
 			case statusIdx:
 				statusV = ex
+			case okIdx:
+				okV = ex
 			}
 		}
+	}
+	if selfAnswering {
+		if okV == nil {
+			return false, hc.Pos(), "the handler ignores whether the bounded read succeeded: parsing or dispatch can happen without having passed the size test"
+		}
+		bad := token.NoPos
+		eachInstr(th, func(in ssa.Instruction) {
+			cc := getCall(in)
+			if cc == nil {
+				return
+			}
+			n := describeCall(cc).Name
+			if n == "ExtractModelName" || n == "TransformRequest" || n == "tryPassthrough" || n == "executeTranslationRequest" {
+				ok := false
+				for _, cf := range condFacts(in.Block()) {
+					if cf.Cond == okV && cf.True {
+						ok = true
+					}
+				}
+				if !ok && bad == token.NoPos {
+					bad = in.Pos()
+				}
+			}
+		})
+		if bad != token.NoPos {
+			return false, bad, "parsing or dispatch can happen without having passed the size test"
+		}
+		return true, guard.Pos(), ""
 	}
 	if errV == nil || statusV == nil {
 		return false, hc.Pos(), "the handler drops the error or the status of the bounded read: an oversized Anthropic request is not refused with 413"
